@@ -72,8 +72,21 @@ def ob_def(dims, S, as_int=False, kind="c", dimform="list"):
         return partial_trace(i["X"], S[0] if as_int else list(S), d)
 
     def oracle(i):
-        return oracle_ptrace(i["X"], dims, S)
-    return Obligation("partial_trace.definition", cfg, build, call, oracle)
+        X = i["X"]
+        if isinstance(X, np.ndarray) and X.dtype.kind in "iub":
+            X = X.astype(object)          # exact Python integers: the sums of the entries, whatever the machine dtype
+        return oracle_ptrace(X, dims, S)
+
+    def witness():
+        # narrow integer dtypes with entries large enough that a sum leaves the dtype's range
+        if kind != "c" or as_int or N > 8:
+            return []
+        out = []
+        for dt, hi in ((np.uint8, 250), (np.int16, 32000), (np.int32, 2 ** 31 - 5)):
+            X = (np.arange(N * N).reshape(N, N) % 7 + hi - 6).astype(dt)
+            out.append({"X": X})
+        return out
+    return Obligation("partial_trace.definition", cfg, build, call, oracle, witness=witness)
 
 
 def ob_scalar_dim(N, d):
